@@ -48,13 +48,11 @@ structure WF (s : State) : Prop where
 
 /-- C15, numeric part.
 * `acc`: the usage the pool reports (`current_capacity`) equals the number of
-  connections that are open, being opened or being closed — up to `phantom`,
-  the `pending_conns` leaked by `_transfer` when its disconnect fails (the
-  connection they stand for does not exist);
+  connections that are open, being opened or being closed;
 * `cap`: it never exceeds the maximum, not counting connections their holder
   handed back as broken. -/
 structure InvNum (s : State) : Prop extends WF s where
-  acc : s.cur + s.phantom = usage s
+  acc : s.cur = usage s
   cap : s.cur ≤ s.max + discByHolder s
 
 /-! ### C15: ownership -/
